@@ -43,6 +43,16 @@ Value& MODExpression::value(Context & ctx) const
   Value& a1 = _args[1]->value(ctx);
   Value v(Value::type_numeric);
 
+  /* null operand gives null */
+  if (a0.isNull() || a1.isNull())
+  {
+    if (a0.type() == Type::INTEGER && (a1.type() == Type::INTEGER || a1.type() == Type::NO_TYPE))
+      v = Value(Value::type_integer);
+    else if ((a0.type() != Type::INTEGER && a0.type() != Type::NUMERIC && a0.type() != Type::NO_TYPE) ||
+             (a1.type() != Type::INTEGER && a1.type() != Type::NUMERIC && a1.type() != Type::NO_TYPE))
+      throw RuntimeError(EXC_RT_FUNC_ARG_TYPE_S, KEYWORDS[oper]);
+  }
+  else
   switch (a0.type().major())
   {
   case Type::NO_TYPE:
@@ -56,7 +66,7 @@ Value& MODExpression::value(Context & ctx) const
     case Type::INTEGER:
       if (*a1.integer() == 0)
         throw RuntimeError(EXC_RT_DIVIDE_BY_ZERO);
-      v = Value(Integer(*a0.integer() % *a1.integer()));
+      v = Value(Value::wrapMod(*a0.integer(), *a1.integer()));
       break;
     case Type::NUMERIC:
       if (*a1.numeric() == 0.0)
